@@ -200,7 +200,11 @@ func pattern(n, salt int) []byte {
 var treeFiles = map[string][]byte{
 	"a.txt":           []byte("0123456789"),
 	"empty.bin":       {},
-	"one.bin":         {0x41},
+	"one.bin":         pattern(1, 65),
+	"two.bin":         pattern(2, 65),
+	"three.bin":       pattern(3, 65),
+	"p255.bin":        pattern(255, 5),
+	"p256.bin":        pattern(256, 6),
 	"sub/b.html":      pattern(300, 3),
 	"sub/deep/c.json": []byte(`{"inside":"c.json","pad":"0123456789abcdefghijklmnopqrstuvwxyz"}`),
 	"sub/.hidden":     []byte("inside hidden file"),
